@@ -152,7 +152,8 @@ def _unprotected_acquires(prog) -> list:
                 if acq is not None:
                     what, call = acq
                     j = i + 1
-                    while j < len(block) and _acquire_of(block[j]) is not None:
+                    # further acquires, and guards that give up when the lock was not obtained (`if not ok: raise`)
+                    while j < len(block) and (_acquire_of(block[j]) is not None or (isinstance(block[j], ast.If) and not block[j].orelse and block[j].body and isinstance(block[j].body[-1], (ast.Raise, ast.Return)) and not any(isinstance(n, ast.Call) and isinstance(n.func, ast.Attribute) and n.func.attr in ("acquire", "release") for n in ast.walk(block[j])))):
                         j += 1
                     ok = False
                     if j < len(block) and isinstance(block[j], ast.Try) and block[j].finalbody:
@@ -185,6 +186,15 @@ def _acquire_of(st):
     """('<expr>' | 'each:<collection>', call) if the statement is  x.acquire()  or  for l in C: l.acquire()"""
     if isinstance(st, ast.Expr) and isinstance(st.value, ast.Call) and isinstance(st.value.func, ast.Attribute) and st.value.func.attr == "acquire":
         return norm(st.value.func.value), st.value
+    def acq_call(e):
+        return next((c for c in ast.walk(e) if isinstance(c, ast.Call) and isinstance(c.func, ast.Attribute) and c.func.attr == "acquire"), None)
+
+    # ok = x.acquire(timeout=...)   /   if not x.acquire(timeout=...): raise ...   (what follows runs with the lock held)
+    if isinstance(st, (ast.Assign, ast.AnnAssign)) and st.value is not None and isinstance(st.value, ast.Call) and acq_call(st.value) is st.value:
+        return norm(st.value.func.value), st.value
+    if isinstance(st, ast.If) and not st.orelse and st.body and isinstance(st.body[-1], (ast.Raise, ast.Return)) and acq_call(st.test) is not None:
+        c = acq_call(st.test)
+        return norm(c.func.value), c
     if isinstance(st, ast.For) and isinstance(st.target, ast.Name) and len(st.body) == 1:
         inner = _acquire_of(st.body[0])
         if inner is not None and inner[0] == st.target.id:
